@@ -47,7 +47,7 @@ CLAIMED = {
          "as_offset on a value already carrying an offset and instants within 2 days of the range ends are unspecified and not generated",
          "DESIGN.md 4 C10"),
  "C15": ("seeded boundary-dense random search over argument tuples with a validity model; metamorphic message-range consistency sweep",
-         "2M (quick) / 40M (thorough) argument tuples over all 12 constructor/setter families (29 functions), each judged for Ok <=> valid, exact value, OutOfRange, no panic, plus ~45 alternative-value probes per rejected call whose message states a range",
+         "2M (quick) / 40M (thorough) argument tuples over all 12 constructor/setter families (29 functions), each judged for Ok <=> valid, exact value, OutOfRange, no panic, plus ~45 alternative-value probes per rejected call whose message states a range; 500k / 5M DateTime setter calls on offset-carrying receivers on the two outermost days at each range end (valid fields with an unrepresentable instant must give OutOfRange)",
          "trusts the validity models of C01/C08/C09/C10; messages without the 'must be in the range' form, or naming a receiver field rather than an argument, are not judged",
          "DESIGN.md 4 C15"),
  "C11": ("grammar-based pattern generation + symbol x width x value-class product against a reference formatter written from the doc tables",
@@ -79,7 +79,7 @@ CLAIMED = {
          "only timestamps from the first transition on are judged; empty footers, leap-second tables and the right/ tree are out of scope; needs the TZif entry point and /etc/localtime injection hooks",
          "DESIGN.md 4 C18"),
  "C19": ("structure-aware mutation of valid TZif files + mutated POSIX-TZ grammar + raw bytes, under catch_unwind; libFuzzer target on raw bytes in the thorough tier",
-         "quick: ~9k systematic mutants (every header count x value, every truncation point, type bytes, hostile rule strings) + 350k random mutants, each accepted file probed at ~100 timestamps over the whole DateTime range, one in ten through Offset::Local.resolve(); thorough: 6M mutants + fuzz campaign",
+         "quick: ~9k systematic mutants (every header count x value, every truncation point, type bytes, hostile rule strings) + 600k random mutants (syntactically hostile and valid-but-degenerate footers) + 400k files with free header counts and a body laid out consistently with them but arbitrary content, each accepted file probed at ~100 timestamps over the whole DateTime range, one in ten through Offset::Local.resolve(); thorough: 6M mutants + fuzz campaign",
          "'never loops' is only bounded by observing that every case returns (a case above 2 s is labelled); I/O failure modes other than a read error are not modelled",
          "DESIGN.md 4 C19"),
  "C20": ("seeded random search against the reference formatter and a serde_json round trip; mutational generation for malformed text",
